@@ -805,21 +805,22 @@ def bpSynchronizeRcu (_t : Nat) : M Unit := do
   P.expect "UNLOCK" ["gp_lock"]
   P.expect "SIGMASK" ["restore"]
 
-partial def threadBp (t : Nat) : M Unit := do
+partial def threadBp (t : Nat) (inH : Bool := false) : M Unit := do
   let e ← P.ev "CALL/…" fun e => some e
   match e.op, e.args with
-  | "CALL", ["lock"] => do bpReadLock t; P.expect "RET" ["lock"]; threadBp t
-  | "CALL", ["unlock"] => do bpReadUnlock t; P.expect "RET" ["unlock"]; threadBp t
-  | "CALL", ["register"] => do bpEnsureRegistered t; P.expect "RET" ["register"]; threadBp t
-  | "CALL", ["sync"] => do bpSynchronizeRcu t; P.expect "RET" ["sync"]; threadBp t
-  | "READER_DONE", _ => do bpThreadExit t; threadBp t
+  | "SIG_EXIT", _ => if inH then pure () else P.fail "SIG_EXIT outside a handler"
+  | "CALL", ["lock"] => do bpReadLock t; P.expect "RET" ["lock"]; threadBp t inH
+  | "CALL", ["unlock"] => do bpReadUnlock t; P.expect "RET" ["unlock"]; threadBp t inH
+  | "CALL", ["register"] => do bpEnsureRegistered t; P.expect "RET" ["register"]; threadBp t inH
+  | "CALL", ["sync"] => do bpSynchronizeRcu t; P.expect "RET" ["sync"]; threadBp t inH
+  | "READER_DONE", _ => do bpThreadExit t; threadBp t inH
   | "DLD", _ => do
       let g ← P.get
       if g.s.rpc t == .cs then lab (.rRead t)
-      threadBp t
-  | "DST", _ => threadBp t
-  | "READER", _ => threadBp t
-  | "SPAWN", _ => threadBp t
+      threadBp t inH
+  | "DST", _ => threadBp t inH
+  | "READER", _ => threadBp t inH
+  | "SPAWN", _ => threadBp t inH
   | "THREAD_EXIT", _ => pure ()
   | _, _ => P.fail s!"unexpected event outside an API call: {e.show}"
 
@@ -842,23 +843,41 @@ partial def threadQ (t : Nat) : M Unit := do
   | "THREAD_EXIT", _ => pure ()
   | _, _ => P.fail s!"unexpected event outside an API call: {e.show}"
 
-partial def thread (t : Nat) : M Unit := do
+partial def thread (t : Nat) (inH : Bool := false) : M Unit := do
   let e ← P.ev "CALL/…" fun e => some e
   match e.op, e.args with
-  | "CALL", ["lock"] => do readLock t; P.expect "RET" ["lock"]; thread t
-  | "CALL", ["unlock"] => do readUnlock t; P.expect "RET" ["unlock"]; thread t
-  | "CALL", ["register"] => do registerThread t; P.expect "RET" ["register"]; thread t
-  | "CALL", ["unregister"] => do unregisterThread t; P.expect "RET" ["unregister"]; thread t
-  | "CALL", ["sync"] => do synchronizeRcu t; P.expect "RET" ["sync"]; thread t
+  | "SIG_EXIT", _ => if inH then pure () else P.fail "SIG_EXIT outside a handler"
+  | "CALL", ["lock"] => do readLock t; P.expect "RET" ["lock"]; thread t inH
+  | "CALL", ["unlock"] => do readUnlock t; P.expect "RET" ["unlock"]; thread t inH
+  | "CALL", ["register"] => do registerThread t; P.expect "RET" ["register"]; thread t inH
+  | "CALL", ["unregister"] => do unregisterThread t; P.expect "RET" ["unregister"]; thread t inH
+  | "CALL", ["sync"] => do synchronizeRcu t; P.expect "RET" ["sync"]; thread t inH
   | "DLD", _ => do
       let g ← P.get
       if g.s.rpc t == .cs then lab (.rRead t)
-      thread t
-  | "DST", _ => thread t
-  | "READER", _ => thread t
-  | "SPAWN", _ => thread t
+      thread t inH
+  | "DST", _ => thread t inH
+  | "READER", _ => thread t inH
+  | "SPAWN", _ => thread t inH
   | "THREAD_EXIT", _ => pure ()
   | _, _ => P.fail s!"unexpected event outside an API call: {e.show}"
+
+/-- a synthetic signal handler frame on thread `t` (C19): if it interrupts rcu_read_lock() between
+the load of rcu_gp.ctr and the store of the reader word, the model suspends that frame -/
+def sigHandler (t : Nat) : M Unit := do
+  let g ← P.get
+  let pushed := match g.s.rpc t with
+    | .ld _ => true
+    | _ => false
+  if pushed then do lab (.sigPush t); cover "sig_interrupts_lock_after_load"
+  match g.s.rpc t with
+  | .fence => cover "sig_interrupts_lock_after_store"
+  | .cs => cover "sig_in_section"
+  | .out => if !pushed then cover "sig_outside_section" else pure ()
+  | _ => pure ()
+  if g.bp then threadBp t true else thread t true
+  if pushed then lab (.sigPop t)
+  cover "sig_handler"
 
 def cfgLine (g : G) (ws : List String) : G :=
   ws.foldl (fun g w =>
@@ -880,6 +899,9 @@ def main : IO UInt32 := do
     match ws with
     | "CFG" :: rest => .ok { r with g := cfgLine r.g rest }
     | _ => match parseEv ws with
-      | some e => feed (fun t g => if g.qsbr then (threadQ t).run else if g.bp then (threadBp t).run else (thread t).run) r e
+      | some e =>
+        let fresh := fun (t : Nat) (g : G) => if g.qsbr then (threadQ t).run else if g.bp then (threadBp t).run else (thread t).run
+        if e.op == "SIG_ENTER" then sigEnter fresh (sigHandler e.tid).run r e.tid
+        else (feed fresh r e).map fun r' => sigResume r' e.tid
       | none => .error "unparsable line"
   loop (← IO.getStdin) f (fun r => showCov r.g.cov) ({ g := {} } : Run G) 0
